@@ -103,7 +103,9 @@ def setup(ctx):
 def run_req(res, ctx, rng, base, idx):
     stub = ctx.state["stub"]
     proj = base / f"p{idx}"
-    proj.mkdir()
+    if rng.random() < 0.12:
+        proj = proj / "LICENSES"   # a project whose own directory happens to be called LICENSES
+    proj.mkdir(parents=True)
     (proj / "src").mkdir()
     (proj / "src" / "m.py").write_text("# SPDX-License-Identifier: MIT\n# SPDX-FileCopyrightText: 2020 J\n")
     git = rng.random() < 0.3
@@ -163,19 +165,19 @@ def run_req(res, ctx, rng, base, idx):
     stub.behaviour = {f"{i}.txt": o for i, o in outcomes.items()}
     stub.log.clear()
     # cwd and root
-    cwd_kind = rng.choice(["root", "sub", "licenses"])
+    cwd_kind = rng.choice(["root", "sub", "licenses", "root", "sub", "licenses", "foreign-licenses"])
     if cwd_kind == "licenses" and lic_state == "absent":
         cwd_kind = "root"
-    cwd = {"root": proj, "sub": proj / "src", "licenses": licdir}[cwd_kind]
-    use_root = rng.random() < 0.5
+    foreign = base / f"elsewhere{idx}" / "LICENSES"
+    if cwd_kind == "foreign-licenses":
+        foreign.mkdir(parents=True)   # a directory of that name which has nothing to do with the project
+    cwd = {"root": proj, "sub": proj / "src", "licenses": licdir, "foreign-licenses": foreign}[cwd_kind]
+    use_root = rng.random() < 0.5 or cwd_kind == "foreign-licenses"
     gargs = ["--no-multiprocessing"] + (["--root", str(proj)] if use_root else [])
     # where the tool takes the project root to be
-    if use_root or git:
-        eff_root = proj
-        target_dir = proj / "LICENSES"
-    else:
-        eff_root = cwd
-        target_dir = cwd if cwd.name == "LICENSES" else cwd / "LICENSES"
+    eff_root = proj if (use_root or git) else cwd
+    # without version control a root that is itself called LICENSES is taken to *be* the licence directory
+    target_dir = eff_root if (eff_root.name == "LICENSES" and not git) else eff_root / "LICENSES"
     output = None
     args = ["download"]
     if len(ids) == 1 and rng.random() < 0.25:
